@@ -214,9 +214,9 @@ func RunCheck(opt Options) int {
 			discharged++
 			continue
 		}
-		path := writeReplay(replayDir, opt, r)
+		path, hr := writeReplay(replayDir, opt, r, prog.ModPath)
 		suffix := ""
-		if !replayHasInput(r) {
+		if !(replayHasInput(r) || hr.Status == "confirmed" || hr.Status == "violation") {
 			suffix = " no-failing-input-found"
 		}
 		out = append(out, fmt.Sprintf("VIOLATION property=%s replay=%s%s", opt.Property, path, suffix))
@@ -367,14 +367,14 @@ func replayHasInput(r *OblResult) bool {
 }
 
 // writeReplay records a failed obligation: its name, clause, the failing VCs with solver verdicts and, for sat, the model.
-func writeReplay(dir string, opt Options, r *OblResult) string {
+func writeReplay(dir string, opt Options, r *OblResult, modPath string) (string, HarnessResult) {
 	type vcRec struct {
 		Path   []int  `json:"path"`
 		Status string `json:"status"`
 		Solver string `json:"solver"`
 		File   string `json:"vc_file"`
 		Output string `json:"solver_output"`
-		Model  string `json:"model,omitempty"`
+		Model  map[string]string `json:"model,omitempty"`
 	}
 	rec := map[string]any{
 		"property":   opt.Property,
@@ -396,7 +396,7 @@ func writeReplay(dir string, opt Options, r *OblResult) string {
 			v.File = dst
 		}
 		if j.Status == "sat" && i == 0 {
-			v.Model = clip(modelOf(j))
+			v.Model = modelOf(j)
 		}
 		vcs = append(vcs, v)
 	}
@@ -405,7 +405,26 @@ func writeReplay(dir string, opt Options, r *OblResult) string {
 	p := filepath.Join(dir, sanitize(r.Name)+".json")
 	b, _ := json.MarshalIndent(rec, "", " ")
 	os.WriteFile(p, b, 0644)
-	return p
+	// replay on the real code: the unit's replay test gets the model; without a model its bounded search runs instead
+	var hr HarnessResult
+	if len(r.failed) > 0 {
+		u := r.failed[0].Unit
+		if u.Replay != "" && len(vcs) > 0 && vcs[0].Model != nil {
+			hr = runHarness(opt, pkgRelOf(modPath, u.Pkg), u.Replay, map[string]string{"VERIF_REPLAY": p}, 60*time.Second)
+		}
+		if hr.Status != "confirmed" && u.Bounded != "" {
+			hb := runHarness(opt, pkgRelOf(modPath, u.Pkg), u.Bounded, map[string]string{}, 120*time.Second)
+			if hb.Status == "violation" || !hr.Ran {
+				hr = hb
+			}
+		}
+		if hr.Ran {
+			rec["harness"] = hr
+			b, _ = json.MarshalIndent(rec, "", " ")
+			os.WriteFile(p, b, 0644)
+		}
+	}
+	return p, hr
 }
 
 func keepSamples(dir string) {
